@@ -1,6 +1,6 @@
 #!/bin/bash
 # run every claimed check (quick tier by default) on the current tree; summary on stdout
-cd /verif
+cd "$(dirname "$(readlink -f "$0")")/.."
 tier=${1:-quick}
 for p in $(python3 -c "import json;print(' '.join(c['property_id'] for c in json.load(open('MANIFEST.json'))['checks']))"); do
   timeout 5400 ./check $p --tier $tier | tail -1 | cut -c1-200
